@@ -20,6 +20,7 @@ func init() {
 			"R2 the copy into the fresh buffer takes the whole payload and its count is compared; R3 in the sender every pbytes.Put of a dequeued packet is preceded on every path by the transport.Writev of its batch, and each Put receives a pointer allocated in the same loop iteration (no pointer shared between recycled packets); " +
 			"R4 every other pbytes.Put recycles a buffer that was never handed to an enqueue on that path; R5 the synchronous branch hands the caller's slice only to the transport call and stores it nowhere. " +
 			"ALSO: recycle only packets dequeued in this round; every pbytes.Put in the repository returns a buffer of the same activation; scratch lists disjoint; wrappers only read the batch; nothing derived from a pooled object is returned after its Put (deferred included). " +
+			"ALSO (round 6): The pool buffer for the private copy is requested by a byte count. " +
 			"DOES NOT DECIDE: what a user Transport does with the slice after returning, merge offsets of the vectored path, sync.Pool semantics (trusted).",
 		Assumptions: []string{"sync.Pool hands an object to one getter", "transport.Write*/Writev have consumed or copied the slice when they return"},
 		Run:         runC10,
@@ -1079,7 +1080,6 @@ func runNoEscapeAfterPut(c *core.Ctx, R string) {
 		})
 	}
 }
-
 
 func isLenOrCapCall(x ssa.Instruction) bool {
 	if _, ok := core.IsBuiltinCall(x, "len"); ok {
